@@ -7,7 +7,7 @@ from . import common as C
 LEVEL = "exploration"
 RULE = ("random operation sequences (length 5-200) of __call__(record=True), __call__(record=False) and add(...) on the REAL "
         "FunctionLogger, over points from a 3-value-per-axis lattice in D=1..3 (forces exact repeats AND points sharing k<D "
-        "coordinates, which is what mesh polling produces), cache sizes 1..6 (repeated growth), uncertainty levels 0/1/2 (add only "
+        "coordinates, which is what mesh polling produces; in 30% of the sequences the lattice also holds DISTINCT values one ulp / 2e-13 relative away from a lattice value), cache sizes 1..6 (repeated growth), uncertainty levels 0/1/2 (add only "
         "in 0 and 2), with/without a transformer (linear and log; in half of the transformed sequences the points come from ONE internal lattice while the transformer's box differs from sequence to sequence - bit-identical internal points with different original points, as successive optimisations with re-scaled boxes produce in one process). After EVERY operation the real logger is compared with an "
         "executable list-of-records reference model of the documented semantics (append; precision-weighted merge into the record "
         "whose ALL coordinates match; no-record path bumps only the observation count of the last matching record; growth changes "
@@ -38,6 +38,11 @@ def seq_batch(n, seed):
         cache = int(rs.randint(1, 7))
         tr = str(rs.choice(["none", "lin", "log"]))
         vals = np.array([0.5, 1.0, 3.0]) if tr == "log" else np.array([-1.0, 0.0, 0.5])
+        near = rs2.rand() < 0.3
+        if near:
+            # DISTINCT points within one unit in the last place (and ~1e-13 relative) of a lattice point: each is a point
+            # of its own and must get its own record - only exact repeats are "the same point"
+            vals = np.concatenate([vals, [np.nextafter(vals[2], np.inf), vals[0] * (1 + 2e-13)]])
         vt = None
         ulat = None
         if tr != "none" and rs2.rand() < 0.5:
@@ -69,7 +74,7 @@ def seq_batch(n, seed):
         failed = False
         for t in range(L):
             ops += 1
-            xo = vals[rs.randint(0, 3, D)]
+            xo = vals[rs.randint(0, 3, D)] if not near else vals[rs2.randint(0, len(vals), D)]
             u = vt(xo.reshape(1, -1))[0] if vt is not None else xo.copy()
             if ulat is not None:
                 u = ulat[rs2.randint(0, 4, D)]
